@@ -194,11 +194,14 @@ theorem jllSOF3_ok (d : Dec) (P H W n : Nat) (cs : List Nat) (hP : 2 ≤ P ∧ P
   rw [if_neg (by omega), if_neg (by omega), if_neg (by omega)]
 
 theorem sv1SOF3_ok (d : Dec) (P H W n : Nat) (cs ids : List Nat) (hP : 2 ≤ P ∧ P ≤ 16) (hW : 1 ≤ W) (hH : 1 ≤ H)
-    (hn : n = 1 ∨ n = 3) (hl : n * 3 ≤ cs.length) (hcs : sv1Comps n cs = some ids) :
+    (hn : n = 1 ∨ n = 3) (hl : n * 3 ≤ cs.length) (hcs : sv1Comps n cs = some ids)
+    (hfirst : d.ncomp = 0 := by rfl) :
     sv1SOF3 d (P :: H / 256 :: H % 256 :: W / 256 :: W % 256 :: n :: cs) =
       some { d with precision := P, height := H, width := W, ncomp := n, ids := ids, sels := ids.map fun _ => 0 } := by
   simp only [sv1SOF3, Nat.div_add_mod']
-  rw [if_neg (by omega), if_neg (by omega), if_neg (by omega), if_neg (by omega), hcs]
+  rw [if_neg (by omega)]
+  repeat (rw [if_neg (by omega)])
+  rw [hcs]
 
 theorem foldl_add_eq_sum (l : List Nat) : l.foldl (· + ·) 0 = l.sum := List.sum_eq_foldl.symm
 
@@ -333,18 +336,16 @@ theorem losslessHeader_eq (W H nc P S : Nat) (tb : HuffTable) (hW : 1 ≤ W ∧ 
         (encSeg 0xC3 ([P, H / 256, H % 256, W / 256, W % 256, nc] ++ compSpecs nc) ++
           (encSeg 0xC4 (0 :: (tb.bits.map byteOf ++ tb.values)) ++
             encSeg 0xDA ([nc] ++ (scanSels nc ++ [S, 0, 0])))))) := by
-  have g1 : ¬ ((W : Int) ≤ 0 ∨ (H : Int) ≤ 0) := by omega
-  have g2 : ¬ (nc ≠ 1 ∧ nc ≠ 3) := by omega
-  have g3 : ¬ ((P : Int) < 2 ∨ (P : Int) > 16) := by omega
-  have g4 : ¬ ((S : Int) < 0 ∨ (S : Int) > 7) := by omega
   have hfix := sofFixed_nat P H W nc (by omega) (by omega) (by omega) (by omega)
   have hS' : byteOf (S : Int) = S := by rw [byteOf_natCast]; omega
   have hcs1 : compSpecs 1 = [1, 0x11, 0] := by decide
   have hss1 : scanSels 1 = [1, 0] := by decide
   have hcs3 : compSpecs 3 = [1, 0x11, 0, 2, 0x11, 0, 3, 0x11, 0] := by decide
   have hss3 : scanSels 3 = [1, 0, 2, 0, 3, 0] := by decide
-  simp only [losslessHeader, if_neg g1, if_neg g2, if_neg g3, if_neg g4, dhtSegment, dhtPayload_ok 0 0 tb ht,
-    JpegC.Outcome.map]
+  -- argument guards of `losslessHeader` (C16's/C17's text): whatever arithmetic guards there are
+  unfold losslessHeader
+  repeat (rw [if_neg (by omega)])
+  simp only [dhtSegment, dhtPayload_ok 0 0 tb ht, JpegC.Outcome.map]
   rcases hc with rfl | rfl
   · rw [writeSegment_encSeg _ _ mSOF3 _ (by simp [sof3Payload, sofFixed]),
       writeSegment_encSeg _ _ mDHT _ (dht_len tb ht _),
